@@ -47,6 +47,29 @@ func selfTest(c *Ctx) (int, error) {
 	}); err != nil {
 		return 0, err
 	}
+	// ---- (a) mechanism trace: hook events of the compressor against DynMechTrace
+	var mc []Case
+	for i, set := range accelSettings {
+		if set.Level == -2 {
+			continue
+		}
+		cs := &WCase{ID: fmt.Sprintf("ST-m%d", i), Family: "writer", Set: set, Arch: c.Host, Mech: true, Data: randData(rng, 200000),
+			Ops: []Op{{Op: "W", N: 70000}, {Op: "F"}, {Op: "W", N: 130000}, {Op: "C"}}}
+		cs.Set.Impl = "fastgo"
+		mc = append(mc, cs)
+	}
+	mtrace, err := c.Execute("st-m", mc, false)
+	if err != nil {
+		return 0, err
+	}
+	if err := c.corruptAndExpect(mtrace, "DynMechTrace", "TV_DynMech.cfg", []fieldEdit{
+		{ev: "Mech", when: func(m map[string]interface{}) bool { return m["m"] == "acc" }, field: "d", fn: func(v interface{}) interface{} { return v.(float64) + 1 }, clause: "acc_moves_only_end"},
+		{ev: "Mech", when: func(m map[string]interface{}) bool { return m["m"] == "slide" }, field: "b", fn: func(v interface{}) interface{} { return v.(float64) - 1 }, clause: "slide_keeps_one_window"},
+		{ev: "Mech", when: func(m map[string]interface{}) bool { return m["m"] == "out" }, field: "a", fn: func(v interface{}) interface{} { return 9000.0 }, clause: "out_piece_size"},
+		{ev: "Mech", when: func(m map[string]interface{}) bool { return m["m"] == "blk" }, field: "b", fn: func(v interface{}) interface{} { return v.(float64) + 1 }, clause: "blk_has_the_pending_tokens"},
+	}); err != nil {
+		return 0, err
+	}
 	// ---- (a) reader trace
 	var rc []Case
 	for i := 0; i < 6; i++ {
